@@ -336,7 +336,7 @@ func checkC13(c C13Case, st *Stats) error {
 	return err
 }
 
-var propC13 = Register(Prop[C13Case]{ID: "C13", Name: "C13", Check: checkC13})
+var propC13 = Register(Prop[C13Case]{ID: "C13", Name: "C13", Pending: true, Check: checkC13})
 
 func TestC13Rapid(t *testing.T) {
 	p := propC13
@@ -504,7 +504,7 @@ func checkC13Res(c C13ResCase, st *Stats) error {
 	return verr
 }
 
-var propC13Res = Register(Prop[C13ResCase]{ID: "C13", Name: "C13res", Check: checkC13Res})
+var propC13Res = Register(Prop[C13ResCase]{ID: "C13", Name: "C13res", Pending: true, Check: checkC13Res})
 
 func TestC13Resolver(t *testing.T) {
 	p := propC13Res
